@@ -148,6 +148,20 @@ impl PartialEq for PanicEq {
     }
 }
 
+/// a hand-written `ne` that is NOT the negation of `eq` (always false / always true): the statement speaks of values
+/// EQUAL to the argument, i.e. of `==`
+#[derive(Clone, Debug)]
+struct NeLies(u8, bool);
+impl PartialEq for NeLies {
+    fn eq(&self, o: &NeLies) -> bool {
+        self.0 == o.0
+    }
+    #[allow(clippy::partialeq_ne_impl)]
+    fn ne(&self, _o: &NeLies) -> bool {
+        self.1
+    }
+}
+
 #[derive(Clone, Debug)]
 struct ZEq;
 impl PartialEq for ZEq {
@@ -207,6 +221,16 @@ fn other_types(tier: Tier) -> (u64, Vec<Viol>) {
         let r = guarded(|| generic_hist(&[], &floats[..3], &ops, &|a: &f32, b: &f32| a.to_bits() == b.to_bits()));
         if let Some(w) = r.unwrap_or_else(|p| Some(format!("x: panic {}", p))) {
             report("f32", &ops, 0, w);
+        }
+    }
+    for lie in [false, true] {
+        let vals = [NeLies(1, lie), NeLies(1, lie), NeLies(2, lie)];
+        for ops in all_ops(3, tier.pick(4, 5)) {
+            n += 1;
+            let r = guarded(|| generic_hist(&[], &vals, &ops, &|a: &NeLies, b: &NeLies| a.0 == b.0));
+            if let Some(w) = r.unwrap_or_else(|p| Some(format!("x: panic {}", p))) {
+                report("NeIsNotNotEq", &ops, 0, w);
+            }
         }
     }
     // an enum whose equality crosses variants (Cow::Borrowed("int") == Cow::Owned("int"))
